@@ -2298,6 +2298,8 @@ class OrderedNamespaceSet(NamespaceSet[_NSO], MutableSequence[_NSO], Generic[_NS
     def __setitem__(self, s: slice, o: Iterable[_NSO]) -> None: ...
 
     def __setitem__(self, s, o) -> None:
+        if not isinstance(s, slice):
+            s = operator.index(s)
         if isinstance(s, int):
             deleted_items = [self._order[s]]
             super().add(o)
@@ -2336,6 +2338,10 @@ class OrderedNamespaceSet(NamespaceSet[_NSO], MutableSequence[_NSO], Generic[_NS
     def __delitem__(self, i: slice) -> None: ...
 
     def __delitem__(self, i: Union[int, slice]) -> None:
+        if not isinstance(i, slice):
+            # an object with __index__() addresses one position, like an int (the slice branch would take the element
+            # found there for the list of elements to remove)
+            i = operator.index(i)
         if isinstance(i, int):
             self._order[i]  # like list.__delitem__: IndexError for an index that is out of range
             i = slice(i, i + 1 if i != -1 else None)  # slice(-1, 0) would be empty
